@@ -344,6 +344,17 @@ def run(ctx):
                 e2e_obs[k] = e2e_obs.get(k, 0) + int(f.get(k, 0))
         else:
             e2e_fail.append((h, o, f))
+    # a failing history is re-run once: a defect of prune/forget is deterministic and fails again; a failure that
+    # does not reproduce (e.g. the `index still in use` race inside check under load) is counted, not reported
+    flaky = 0
+    if e2e_fail:
+        again = run_lines(e2e, [h for h, _, _ in e2e_fail], "e2e_confirm", timeout=3400, pin=True)
+        confirmed = []
+        for (h, o, f), o2 in zip(e2e_fail, again):
+            if o2.startswith("ok"): flaky += 1
+            else: confirmed.append((h, o, f))
+        e2e_fail = confirmed
+    cov["e2e_failures_not_reproduced_on_rerun"] = flaky
     cov.update({"evaluations": len(cases) + len(hl), "distinct_nontrivial": len(nontriv),
                 "rule": "planner cases = 1-4 index files x up to 12 packs (plus packs holding 254-300 copies of one blob) over a small blob universe: duplicates across and inside packs, packs listed twice / both marked and unmarked, marked packs at mark_time+keep_delete in {now-1,now,now+1}, pack times at the keep_pack boundary, missing time, partially used / unused / unreferenced / missing / wrong-size packs, every option; non-trivial = some used id and some pack not simply kept; distinct by case text.  e2e = histories of <= %d steps of {backup of a mutated source, forget subset, resurrect+prune, prune(random options)} with pack sizes 600-20000 and 64-512 byte chunks" % maxsteps,
                 "samples": samples, "distribution": hist,
